@@ -78,6 +78,12 @@ Clauses(e) ==
           e.ev = "Step" =>
               \A a \in Agents : \A k \in StickyIdx(Cfg, a) :
                   ~Comps(Cfg, a)[k].sticky => StickyOK(FALSE, e.qual[a][k], 0, e.vals[a][k]),
+      \* at a qualifying event the remembered value is replaced by the component's fresh evaluation (= what a memory-less
+      \* twin of the component returns for the same state and action)
+      QualifyingEventReplacesValue |->
+          e.ev = "Step" =>
+              \A a \in Agents : \A k \in StickyIdx(Cfg, a) :
+                  e.qual[a][k] => e.vals[a][k] = e.fresh[a][k],
       EachComponentEvaluatedOnce |-> e.ev = "Step" => \A a \in Agents : e.once[a],
       OwnLatestAction |-> e.ev = "Step" => \A a \in Agents : e.lar[a],
       PostStepState |-> e.ev = "Step" => \A a \in Agents : e.post[a],
